@@ -56,6 +56,8 @@ class Gen:
 
     def start_op(self, i):
         k = self.kinds[i]
+        if k == "signal":    # persistent or one-shot watcher
+            return f"start h{i} {self.r.choice([0, 0, 1])} 0"
         if k == "pipe":      # bind path of 1..140 characters (short ones fall back to the base name; > 108 is truncated by libuv)
             return f"start h{i} {self.r.choice([0, 0, 60, 100, 107, 108, 109, 120, 140])} 0"
         if k == "timer": return f"start h{i} {self.tmo()} {self.rep()}"
@@ -193,7 +195,7 @@ class Gen:
         self.kinds += ["signal"] * nsig + ["timer"]
         self.main += ["op init signal"] * nsig + ["op init timer", f"op start h{nsig} {r.range(1, 9)} {r.choice([0, 3])}"]
         for i in range(nsig):
-            self.main.append(f"op start h{i} 0 0")
+            self.main.append(f"op start h{i} {r.choice([0, 0, 1])} 0")
             if n > 30 or r.chance(1, 2):
                 self.on.append(f"on h{i} {0 if n > 30 else r.below(2)} " + r.choice([f"stop h{i}", f"close h{i}", f"close h{i}", f"stop h{i} ; start h{i} 0 0 ; stop h{i}"]))
         self.main.append(f"op raise {n}")
@@ -273,6 +275,31 @@ class Gen:
         self.main += ["op run DEFAULT", "op run DEFAULT", "op loop_close"]
         return self.cfg + self.on + self.main
 
+    def build_connects(self):
+        """tcp connects whose completion is decided by the kernel's answers: getsockopt(SO_ERROR) says EINPROGRESS on the first
+        wake-up(s) (spurious), then the real result (success / ECONNREFUSED); closes while the connect is pending"""
+        r = self.r
+        n = r.range(1, 3)
+        self.cfg += [f"config metrics {int(r.chance(1, 2))}", "config clock0 1000", f"config cblimit {r.range(12, 30)}",
+                     f"config soerror {r.choice([0, 1, 1, 2, 3])}"]
+        self.kinds += ["tcp"] * n + ["timer"]
+        self.main += ["op init tcp"] * n + ["op init timer"]
+        if r.chance(1, 2): self.main.append(f"op start h{n} {r.range(0, 4)} {r.choice([0, 2])}")
+        for i in range(n):
+            self.main.append(f"op connect h{i}" + (" refused" if r.chance(1, 3) else ""))
+            if r.chance(1, 5): self.main.append(f"op close h{i}")
+        for q in range(n):
+            if r.chance(1, 2): self.on.append(f"on r{q} 0 " + r.choice([f"close h{q}", "alive", f"close h{r.below(n)}", "work"]))
+        if r.chance(1, 3): self.on.append(f"on h{n} 0 close h{r.below(n)} ; alive")
+        for _ in range(r.range(2, 4)):
+            self.main.append("op run " + r.choice(["NOWAIT", "ONCE", "NOWAIT"]))
+            if r.chance(1, 3): self.main.append("op alive")
+        self.main.append("op loop_close")
+        for i in range(len(self.kinds)):
+            self.main.append(f"op close h{i}")
+        self.main += ["op run DEFAULT", "op run DEFAULT", "op loop_close"]
+        return self.cfg + self.on + self.main
+
     def build_embedder(self):
         """embedder style: I/O watchers started / changed outside uv_run (registrations pending in watcher_queue) with and
         without armed timers, uv_backend_timeout() before and after the loop applied them"""
@@ -327,6 +354,8 @@ class Gen:
             return self.build_signal_burst()
         if self.bias == "C01" and r.chance(1, 8):
             return self.build_failing_submissions()
+        if self.bias in ("C01", "C02") and r.chance(1, 10):
+            return self.build_connects()
         if self.bias == "C02" and r.chance(1, 8):
             return self.build_processes()
         if self.bias == "C02" and r.chance(1, 14):
@@ -549,6 +578,9 @@ class Mon:
                     Rq[nreq] = dict(kind="udp", h=hid, owed=True, cancelled=False, sync=not inflight and not own_cb); nreq += 1
                 elif op == "connect_bad":
                     Rq[nreq] = dict(kind="connect", h=hid, owed=True, cancelled=False); nreq += 1
+                elif op == "connect":
+                    if ret == 0:      # a real connect: completes with 0 (listener) / ECONNREFUSED (no listener) once the kernel says so
+                        Rq[nreq] = dict(kind="connect", h=hid, owed=True, cancelled=False, real=(-111 if text[-1] == "refused" else 0)); nreq += 1
                 elif op in ("work_null", "udp_send_bad", "reject"):
                     want = -89 if op == "udp_send_bad" else -22
                     if ret != want:
@@ -702,7 +734,7 @@ class Mon:
                         elif q["kind"] == "connect":
                             hh = H.get(q["h"])
                             closing = bool(hh and hh["closing"])
-                            if status != (-125 if closing else -22):
+                            if status != (-125 if closing else q.get("real", -22)):
                                 self.bad("C02", "connect-status", f"connect_cb status {status} (handle closing={closing}): a pending connect "
                                          "must be failed with UV_ECANCELED by uv_close, with its own error otherwise", i)
                             if closing and hh and not hh["dead"] and self.cp is None:
@@ -737,6 +769,16 @@ class Mon:
             if l.startswith("res "):
                 # resources_released: after the close callback of an fs_event handle its kernel watch is gone unless
                 # another started fs_event handle still watches the (single) directory
+                mg = re.match(r"res h(\d+) sigaction=(\w+)$", l)
+                if mg:
+                    # resources_released: once the last watcher of the signal is closed, the process-wide disposition is the
+                    # default again (one-shot and persistent watchers, closed before or after the signal fired)
+                    others = [h for h, f in (last_obs or {"hs": {}})["hs"].items() if H.get(h, {}).get("kind") == "signal" and f[0] == "A"]
+                    self.stats["sigaction_checked"] = self.stats.get("sigaction_checked", 0) + 1
+                    if not others and mg.group(2) != "dfl":
+                        self.bad("C02", "signal-handler-left", f"after close_cb of signal h{mg.group(1)} no signal watcher is active but libuv's "
+                                 "process-wide signal handler is still installed", i)
+                    i += 1; continue
                 me = re.match(r"res h(\d+) epoll=(-?\d+)$", l)
                 if me:
                     # resources_released: the kernel interest set of the loop no longer holds the handle's open file
@@ -768,7 +810,7 @@ class Mon:
                         self.bad("C02", "fs-event-watch-leak", f"after close_cb of fs_event h{m.group(1)} the loop's inotify descriptor holds "
                                  f"{m.group(2)} kernel watch(es); {want} expected (other active watchers: {others})", i)
                 i += 1; continue
-            if l.startswith("env sendm"):
+            if l.startswith("env sendm") or l.startswith("env soerror"):
                 i += 1; continue
             if l.startswith("RUNAWAY-CALLBACKS"):
                 self.bad("C03", "runaway-phase", "a loop phase kept invoking callbacks far beyond the program's callback limit "
@@ -1126,7 +1168,7 @@ def prog_metrics(prog):
 
 
 def evaluate(ctx, exe, prog, tag, with_model=True):
-    if any(re.search(r"\b(touch|work_nocb|udp_send_nocb|dgram|init_fail|raise|spawn|open|fail|async_send_thread)\b|config eagain", l) for l in prog):
+    if any(re.search(r"\b(touch|work_nocb|udp_send_nocb|dgram|init_fail|raise|spawn|open|fail|async_send_thread|connect)\b|config eagain", l) for l in prog):
         # file-system traffic, requests without completion callback, incoming datagrams / forced EAGAIN:
         # monitors only (the model has no semantics for them)
         with_model = False
